@@ -103,9 +103,9 @@ P['C10'] = dict(
   level_text='Solver-checked on the real Circuit::legalize / placeDetailed with C++ exceptions executed by the engine: in every scenario (normal, infeasible legalization, rejected parameters, callback throwing at each callback index of the run) each of the 7 structural setters called inside the callback throws and writes nothing (circuit write-protected), and after the call, however it ended, every setter succeeds again, check() passes, a failed legalization has left x/y/orientation unchanged and a further placement call works. Initial x positions symbolic.',
   text=dict(bounds=dict(quick='2 cells, 2 rows, initial x symbolic in [-8,48], stages legalize and placeDetailed (1 pass, swaps only), 7 setters, every callback index', thorough='same'),
             outside='placeGlobal beyond parameter rejection (see C19 H19D); more passes / shift and reordering callbacks; larger circuits'),
-  assumptions=STD_ASSUME + [BOOST_ASSUME, 'legalization ordering key evaluated with the linear float error model'],
+  assumptions=STD_ASSUME + [BOOST_ASSUME, 'legalization processing order over-approximated (FP havoc: every outcome of each float key comparison explored)'],
   harnesses=[
-    dict(name='H10', src='C10_busy.cpp', covers=['placement call ended', 'end'], defines={'VCAP': 8}, cfg=dict(fp='real'), ir_srcs=ALL_IR, native_srcs=ALL_IR, native_flags=['-llemon']),
+    dict(name='H10', src='C10_busy.cpp', covers=['placement call ended', 'end'], defines={'VCAP': 8}, cfg=dict(fp='havoc'), ir_srcs=ALL_IR, native_srcs=ALL_IR, native_flags=['-llemon']),
   ])
 
 C01_BASE = {'VCAP': 8, 'NC': 2, 'NFIXED': 0, 'NROWS': 2, 'TALLCHOICES': 2, 'POLCHOICES': 5, 'ORICHOICES': 1, 'ROWPATTERNS': 2, 'GAPCHOICES': 1, 'PARAMSETS': 1}
@@ -115,11 +115,37 @@ P['C01'] = dict(
   text=dict(bounds=dict(quick='2 movable cells (cell 0 row-high or 2 rows high), widths symbolic 1..12, x symbolic in [-64,128], y enumerated in {-7,6,19}, 2 rows (N,FS) of symbolic width 8..64, cell 0 all 5 polarities, cell 1 ANY, default ordering parameters',
                         thorough='H01E: 4 row patterns, 8 orientations for ANY cells, 5x5 polarities, 3 ordering parameter sets; H01EY: y symbolic too (3 polarities); H01EF: + 1 fixed cell (obstruction flag, symbolic size/position), 3 rows with optional gap; H01E3: 3 movable cells (widths 4/9)'),
             outside='more than 3 movable cells / 3 rows / 1 fixed cell; several segments per y other than those produced by one obstruction; efforts other than 1 (legalization parameters do not depend on the effort)'),
-  assumptions=STD_ASSUME + [BOOST_ASSUME, 'legalization ordering key (float) evaluated with the linear error model fl(e)=e+eta, |eta|<=2^-24 M(e)'],
+  assumptions=STD_ASSUME + [BOOST_ASSUME, 'legalization processing order over-approximated: every outcome of each float key comparison is explored (FP havoc), so the claims hold for any processing order'],
   harnesses=[
-    dict(name='H01E', src='C01_legalize.cpp', covers=['legalize ended', 'legalize returned', 'legalize threw', 'end'], defines=dict(C01_BASE, YCHOICE=None, POL1CHOICES=1, ROWPATTERNS=1), cfg=dict(fp='real'), split=2, ir_srcs=ALL_IR, native_srcs=ALL_IR, native_flags=['-llemon'],
+    dict(name='H01E', src='C01_legalize.cpp', covers=['legalize ended', 'legalize returned', 'legalize threw', 'end'], defines=dict(C01_BASE, YCHOICE=None, POL1CHOICES=1, ROWPATTERNS=1), cfg=dict(fp='havoc'), split=2, ir_srcs=ALL_IR, native_srcs=ALL_IR, native_flags=['-llemon'],
          thorough=dict(defines={'ROWPATTERNS': 4, 'ORICHOICES': 8, 'POL1CHOICES': 5, 'PARAMSETS': 3})),
-    dict(name='H01EY', src='C01_legalize.cpp', tiers=('thorough',), covers=['legalize ended', 'end'], defines=dict(C01_BASE, POLCHOICES=3, ROWPATTERNS=1), cfg=dict(fp='real', time_budget=900), split=4, ir_srcs=ALL_IR, native_srcs=ALL_IR, native_flags=['-llemon']),
-    dict(name='H01EF', src='C01_legalize.cpp', tiers=('thorough',), covers=['legalize ended', 'end'], defines=dict(C01_BASE, YCHOICE=None, NFIXED=1, NROWS=3, GAPCHOICES=2, POLCHOICES=2, TALLCHOICES=2, VCAP=10), cfg=dict(fp='real', time_budget=900), split=3, ir_srcs=ALL_IR, native_srcs=ALL_IR, native_flags=['-llemon']),
-    dict(name='H01E3', src='C01_legalize.cpp', tiers=('thorough',), covers=['legalize ended', 'end'], defines=dict(C01_BASE, NC=3, VCAP=10, YCHOICE=None, WCHOICE=None, POLCHOICES=2, POL1CHOICES=2), cfg=dict(fp='real', time_budget=900), split=2, ir_srcs=ALL_IR, native_srcs=ALL_IR, native_flags=['-llemon']),
+    dict(name='H01EY', src='C01_legalize.cpp', tiers=('thorough',), covers=['legalize ended', 'end'], defines=dict(C01_BASE, POLCHOICES=3, ROWPATTERNS=1), cfg=dict(fp='havoc', time_budget=900), split=4, ir_srcs=ALL_IR, native_srcs=ALL_IR, native_flags=['-llemon']),
+    dict(name='H01EF', src='C01_legalize.cpp', tiers=('thorough',), covers=['legalize ended', 'end'], defines=dict(C01_BASE, YCHOICE=None, NFIXED=1, NROWS=3, GAPCHOICES=2, POLCHOICES=2, TALLCHOICES=2, VCAP=10), cfg=dict(fp='havoc', time_budget=900), split=3, ir_srcs=ALL_IR, native_srcs=ALL_IR, native_flags=['-llemon']),
+    dict(name='H01E3', src='C01_legalize.cpp', tiers=('thorough',), covers=['legalize ended', 'end'], defines=dict(C01_BASE, NC=3, VCAP=10, YCHOICE=None, WCHOICE=None, POLCHOICES=2, POL1CHOICES=2), cfg=dict(fp='havoc', time_budget=900), split=2, ir_srcs=ALL_IR, native_srcs=ALL_IR, native_flags=['-llemon']),
+  ])
+
+P['C02'] = dict(
+  design_ref='DESIGN.md section 3 C02',
+  level_text='(A) One-step induction on the real DetailedPlacement: from an ARBITRARY legal placement (symbolic segments, widths, positions; built by the real constructor) any single swap or insert accepted by canSwap/canInsert leaves a state for which check() passes and the directly stated invariant holds (inside segment, no overlap, y = row y, ignored cells untouched, widths unchanged, orientation prescribed and never INVALID) - hence every sequence of moves. (E) Circuit::placeDetailed end to end on a tiny symbolic circuit with a callback evaluating the legality predicate at every Detailed step and on return.',
+  text=dict(bounds=dict(quick='A: 2 segments (split row or stacked, N/FS), 3 cells incl. an optionally ignored one, widths 1..6, positions symbolic, cell 0 any polarity; E: see harness list', thorough='A: 4 cells'),
+            outside='more cells/segments; network simplex internals (modelled by contract); more than one pass end to end'),
+  assumptions=STD_ASSUME + [BOOST_ASSUME, LEMON_ASSUME],
+  harnesses=[
+    dict(name='H02A', src='C02_step.cpp', covers=['constructed', 'swapped', 'inserted', 'end'], defines={'VCAP': 8, 'NCELLS': 3}, cfg=dict(fp='real'), ir_srcs=ALL_IR, native_srcs=ALL_IR, native_flags=['-llemon'],
+         thorough=dict(defines={'NCELLS': 4})),
+    dict(name='H02E', src='C02_e2e.cpp', tiers=('thorough',), covers=['placeDetailed ended', 'end'],
+         defines={'VCAP': 10, 'NC': 3, 'YCELLS': 2, 'TALLCHOICES': 2, 'POLCHOICES': 2, 'ORICHOICES': 1, 'NNETS': 2, 'SHIFTCELLS': 0, 'REORDERCELLS': 0}, cfg=dict(fp='havoc'), split=3,
+         ir_srcs=ALL_IR, native_srcs=ALL_IR, native_flags=['-llemon'],
+         thorough=dict(defines={'POLCHOICES': 3, 'ORICHOICES': 4}, cfg=dict(time_budget=300))),
+  ])
+
+P['C05'] = dict(
+  design_ref='DESIGN.md section 3 C05',
+  level_text='One-pass induction on the real DetailedPlacer: from an ARBITRARY legal placement of a tiny circuit (symbolic x positions and row width; rows N/N or N/FS; one cell optionally with SAME polarity so that its orientation and pin offsets change with the row) each pass primitive (swaps in a row, amplified swaps between rows, inserts in a row, inserts between rows) leaves a placement whose incremental value did not increase, whose REAL half-perimeter wirelength (public hpwl() with orientation-dependent pin offsets, after export) is not above the value before the pass, and which is legal. Successive callbacks and the final result of placeDetailed are compositions of such passes.',
+  text=dict(bounds=dict(quick='3 row-high cells (widths 3,6,3) on 2 rows; x of cell 0 symbolic in [0,40] and its row enumerated, x of the others enumerated in {0,9}; row width symbolic 12..40; 1 net; polarity of cell 0 in {ANY,SAME}; 4 pass primitives', thorough='2 nets (2 and 3 pins), other cells x in {0,9,18,27}, 2 pin-offset sets'),
+            outside='shift pass (network simplex contract) and reordering pass; more cells; end-to-end composition is argued by induction, not executed'),
+  assumptions=STD_ASSUME + [BOOST_ASSUME],
+  harnesses=[
+    dict(name='H05P', src='C05_pass.cpp', covers=['placer built', 'end'], defines={'VCAP': 10, 'NC': 3, 'POLCHOICES': 2, 'NNETS': 1}, cfg=dict(fp='havoc', time_budget=60), ir_srcs=ALL_IR, native_srcs=ALL_IR, native_flags=['-llemon'],
+         thorough=dict(defines={'NNETS': 2, 'XCHOICES': 4, 'OFFCHOICES': 2}, cfg=dict(time_budget=600))),
   ])
